@@ -1,3 +1,4 @@
 import Generated.Constants
 import Generated.FastDivTab
 import Generated.Globals
+import Generated.ExternRefs
